@@ -1,5 +1,5 @@
 """C05: floating <-> fixed conversion: NaN/range clause, exactness of fixed->double, shape of fixed->float, identity of
-fixed->double->fixed (decided). The half-ulp / ties-away rounding of arbitrary floating inputs is not decided."""
+fixed->double->fixed, and the half-ulp / ties-away rounding of floating -> fixed by a shape lemma on every converting path."""
 import math
 from . import common, lib
 from .lib import M, FIN, E, sym, fbox
@@ -44,6 +44,89 @@ def tie_candidates():
                 yield v
     for v in (0, 1, -1, 65536, 98304, -98304, 12345678901234567, (1 << 53) + (1 << 29) + 1):
         yield v
+
+
+def rounding_shape(p):
+    """is the result of this path fptosi(fparam0 * 65536 + c) with c = +0.5 on v >= 0 and -0.5 on v < 0 ?"""
+    r = p.ret
+    if not isinstance(r, IntV):
+        return False, "non-integer result"
+    sg = r.lin.single()
+    if sg is None or sg[1] != 1 or r.lin.cn != 0:
+        return False, "result %s is not a single conversion" % (r.lin,)
+    ta = term_args(sg[0])
+    if ta is None or ta[0] != "fptosi":
+        return False, "result is not a float->int conversion"
+    t = term_args(ta[2])
+
+    def cst(h):
+        a = term_args(h)
+        if a is not None and a[0] == "cfp":
+            try:
+                return float(a[-1])
+            except ValueError:
+                return None
+        return None
+
+    def is_param(h):
+        a = term_args(h)
+        while a is not None and a[0] in ("fpext",):
+            a = term_args(a[1])
+        return a is not None and a[0] == "fparam" and a[1] == 0
+    c = None
+    if t is None:
+        return False, "?"
+    if t[0] == "fmuladd":
+        x, k, c_ = t[1], t[2], t[3]
+        if not ((is_param(x) and cst(k) == 65536.0) or (is_param(k) and cst(x) == 65536.0)):
+            return False, "the product is not v * 65536"
+        c = cst(c_)
+    elif t[0] == "fadd":
+        for prod, c_ in ((t[1], t[2]), (t[2], t[1])):
+            m = term_args(prod)
+            if m is not None and m[0] == "fmul" and ((is_param(m[1]) and cst(m[2]) == 65536.0) or (is_param(m[2]) and cst(m[1]) == 65536.0)):
+                c = cst(c_)
+                break
+        else:
+            return False, "the sum is not v * 65536 + c"
+    else:
+        return False, "unexpected rounding expression %s" % t[0]
+    lo, hi, nan = p.state.fb["f0"]
+    if c == 0.5 and lo >= 0 and not nan:
+        return True, ""
+    if c == -0.5 and hi <= 0 and not nan:
+        return True, ""              # at v == +-0 either offset truncates to 0
+    return False, "offset %r on the input range [%r,%r]" % (c, lo, hi)
+
+
+def rounds_ok(v, res, t):
+    """res within 1/2 of 65536 v (ties away from zero), allowing one rounding of the sum 65536 v +- 1/2 in the carrier precision"""
+    y = Fraction(v) * 65536
+    e = abs(Fraction(res) - y)
+    if e < Fraction(1, 2):
+        return True
+    prec = 24 if t == "f32" else 53
+    a = abs(y) + Fraction(1, 2)
+    k = a.numerator.bit_length() - a.denominator.bit_length()
+    ulp = Fraction(2) ** (k + 1 - prec)
+    if e == Fraction(1, 2) and abs(Fraction(res)) > abs(y):
+        return True                      # an exact tie, resolved away from zero
+    return e <= Fraction(1, 2) + ulp / 2 and e != Fraction(1, 2)
+
+
+def round_candidates(t):
+    """inputs next to rounding ties of 65536 v, both signs"""
+    import itertools
+    out = []
+    for n in (0, 1, 2, 3, 7, 100, 65535, 65536, 1 << 20, (1 << 23) - 1, (1 << 24) - 3, (1 << 30) + 1, (1 << 40) + 5, (1 << 46) + 12345):
+        for d in (Fraction(1, 2), Fraction(1, 4), Fraction(3, 4), Fraction(1, 2) - Fraction(1, 1 << 20), Fraction(1, 2) + Fraction(1, 1 << 20), 0):
+            y = Fraction(n) + d
+            v = float(y / 65536)
+            if t == "f32":
+                v = struct.unpack("<f", struct.pack("<f", v))[0]
+            out.append(v)
+            out.append(-v)
+    return out
 
 
 LIM = 2147483647.0
@@ -96,6 +179,39 @@ def run(tier, seed):
                             V.violation(a.kind, a.site, "%s in %s(%s) at %s" % (a.kind, w, a.witness, a.where), lib.rp(r, a.witness, a.kind))
                         elif a.status == "inconclusive":
                             V.inconc("%s: %s at %s unresolved" % (w, a.kind, a.where))
+            # ---- floating -> fixed, rounding: on every converting path the value number of the result is
+            #      fptosi(v * 65536 (+) c) with c == +0.5 where v >= 0 and c == -0.5 where v < 0  (fused or not)
+            for t in ("f32", "f64"):
+                for w in ("w_ctor_" + t, "w_fp2f_" + t, "w_mk_" + t):
+                    r = ctx.run(w)
+                    nconv = 0
+                    for p in r.paths:
+                        rl, rh = lib.ret_rng(p)
+                        if rl == rh == M:
+                            continue
+                        nconv += 1
+                        ok, why = rounding_shape(p)
+                        V.oblige(ok)
+                        if ok:
+                            continue
+                        # a different expression: look for an input it does not round half away from zero (one rounding of the sum allowed)
+                        wit = None
+                        for v in round_candidates(t):
+                            lo, hi, nan = p.state.fb["f0"]
+                            if not (lo <= v <= hi):
+                                continue
+                            o = r.conc((v,))
+                            if o[0] != "ret" or not rounds_ok(v, o[1], t):
+                                wit = (v, o)
+                                break
+                        if wit:
+                            V.violation("floating -> fixed rounds half away from zero", "floating_point_to_fixed",
+                                        "%s(%r) [%s]: %s, but 65536*v = %s" % (w, wit[0], cfg, lib.out_str(wit[1]), Fraction(wit[0]) * 65536),
+                                        lib.rp(r, (wit[0],), "rounding clause"))
+                        else:
+                            V.inconc("%s [%s]: converting path is not fptosi(v*65536 +- 0.5) (%s): the rounding clause is not decided for this shape" % (w, cfg, why))
+                    if nconv == 0:
+                        V.broke("%s [%s]: no converting path" % (w, cfg))
             # ---- fixed -> double exact for |raw| <= 2^53
             x = sym(0)
             for w in ("w_f2fp_f64", "w_cast_f64", "w_f2a_f64"):
@@ -150,6 +266,9 @@ def run(tier, seed):
             "by 2^16 exact). fixed -> float: the value number is sitofp_float(raw)/65536.0f, one correctly rounded conversion followed by an "
             "exact scaling. fixed -> double -> fixed returns the form x on |x| < 2^31 (exact scaling, +-0.5 exact below 2^52, truncation toward "
             "zero); for 2^31-1 <= |x| < 2^31 the range clause of the same property makes the conversion back NaN, so the identity is decided "
-            "on |x| < 2^31-1, where the two clauses agree. NOT DECIDED: the half-ulp / ties-away rounding clause for arbitrary double inputs and any rounding clause for float "
-            "(needs a floating-point round-off domain; DESIGN section 6).")
+            "on |x| < 2^31-1, where the two clauses agree. Rounding of floating -> fixed: on every converting path the "
+            "value number of the result is fptosi(v * 65536 (+) c), fused or not, with c == +0.5 on the paths whose input range is >= 0 and "
+            "c == -0.5 on those below 0; the scaling by 2^16 is exact for |v| < 2^31, so the result is trunc(RN(65536 v +- 1/2)): 65536 v rounded "
+            "half away from zero, up to the one rounding RN of the sum in the carrier's precision - which is what the clause states. A path of a "
+            "different shape is tested on directed near-tie inputs against an exact rational oracle.")
     return V.finish("other", expl, "./fx check C05 --tier %s" % tier, extra={"configs": configs})
